@@ -114,9 +114,9 @@ ALL_IDS = sorted(slot_id(t, k) for t in ALL_TEMPLATES for k in (0, 1))
 # ---- timestamp spellings ----------------------------------------------------------
 # (fraction in microseconds, text after the seconds)
 SPELL = [(0, ""), (0, ".000"), (500000, ".5"), (500000, ".500"), (123000, ".123"), (123456, ".123456"),
-         (120000, ".12"), (120000, ".120"), (0, ".000000"), (999999, ".999999"), (500000, ".50")]
+         (120000, ".12"), (120000, ".120"), (0, ".000000"), (999999, ".999999"), (500000, ".50"), (999998, ".999998")]
 SPELL_MS = [1, 3, 4, 7]            # exactly three digits: the only spellings STIX 2.0 allows for created/modified
-SPELL_NAMES = ["Z", ".000Z", ".5Z", ".500Z", ".123Z", ".123456Z", ".12Z", ".120Z", ".000000Z", ".999999Z", ".50Z"]
+SPELL_NAMES = ["Z", ".000Z", ".5Z", ".500Z", ".123Z", ".123456Z", ".12Z", ".120Z", ".000000Z", ".999999Z", ".50Z", ".999998Z"]
 YEARS = [2020, 2020, 2020, 2021, 9998, 1001]
 CREATED_MS = ["1000-01-01T00:00:00.000Z", "1000-06-01T12:30:00.500Z"]                 # never after any modified
 CREATED_ANY = CREATED_MS + ["1000-01-01T00:00:00Z", "1000-06-01T12:30:00.5Z", "1000-06-01T12:30:00.123456Z"]
@@ -170,6 +170,11 @@ def versions_of(draw, tname, k, max_versions, overrides=None):
     lo = min(max_versions, draw(st.sampled_from([1, 2, 2])))
     moments = draw(st.lists(st.tuples(st.sampled_from([0, 0, 1, 2]), st.sampled_from(sp_ok)), min_size=lo, max_size=max_versions,
                             unique_by=lambda m: (m[0], SPELL[m[1]][0])))
+    if max_versions >= 2 and len(SPELL) - 1 in sp_ok and draw(st.integers(0, 7)) == 0:
+        # two versions one microsecond apart near the end of the calendar: an instant taken through binary floating point (POSIX seconds as
+        # a float resolve ~30 us there) no longer tells them apart
+        year = 9998
+        moments = [(0, 9), (0, len(SPELL) - 1)] if draw(st.booleans()) else [(0, len(SPELL) - 1), (0, 9)]
     newest = max(moments, key=lambda m: (m[0], SPELL[m[1]][0]))
     return [build(tname, k, created, ts_text(year, s, sp), i + 1, (s, sp) == newest, overrides) for i, (s, sp) in enumerate(moments)]
 
